@@ -17,6 +17,9 @@ def t3(rep, tier, seed):
     dom = [dict(d, algo="bc") for d in base if not d.get("scale")]
     # regression input recorded when defect F7 was exhibited
     dom.append({"algo": "bc", "values": [4, 4, 8, 9, 9, 8, 7, 3, 4, 3], "B": 20})
+    # the search of bin-completion only branches for ~8+ items that sit on its pruning thresholds: threshold packs of 8-10 items (B = 10, 12, 30)
+    from props._domains import threshold_packs
+    dom += [dict(d, algo="bc") for d in threshold_packs(tier, sizes=(8, 9, 10), binsizes=(10, 12, 30), per_size=250 if tier == "quick" else 4000)]
     rep.add(H.run_case("C03/T3/bc/feasible-packing", "prtpy/packing/bin_completion.py::bin_completion", T.c03_case, dom, bound + " (integers only)"))
 
 
